@@ -55,6 +55,26 @@ LIBC = {
     "rename": {}, "system": {}, "strerror": {"ret": "fresh"}, "fgets": {"w": [(0, 1)], "ret": 0}, "fflush": {}, "sleep": {},
     "getgid": {}, "getegid": {}, "signal": {}, "umask": {}, "fileno": {}, "isatty": {}, "strtok": {"w": [(0, 1)], "ret": 0},
     "nftw": {}, "rmdir": {}, "chdir": {}, "getcwd": {"w": [(0, 1)], "ret": 0}, "wait": {"w": [(0, 1)]}, "_exit": {},
+    # round 3: routines a well-meant change is likely to bring in
+    "fdopen": {"ret": "fresh"}, "close": {}, "open": {}, "openat": {}, "read": {"w": [(1, 1)]}, "write": {}, "fchmod": {}, "chmod": {}, "fchown": {}, "chown": {},
+    "fsync": {}, "fdatasync": {}, "ftruncate": {}, "lseek": {}, "mkostemp": {"w": [(0, 1)]}, "mkdtemp": {"w": [(0, 1)], "ret": 0},
+    "faccessat": {}, "fstatat": {"w": [(2, 1)]}, "readlink": {"w": [(1, 1)]}, "link": {}, "symlink": {}, "unlinkat": {}, "renameat": {},
+    "opendir": {"ret": "fresh"}, "closedir": {"frees": [0]}, "readdir": {"ret": "fresh"}, "dirfd": {},
+    "fread": {"w": [(0, 1), (3, 1)]}, "fgetc": {"w": [(0, 1)]}, "getc": {"w": [(0, 1)]}, "ungetc": {"w": [(1, 1)]}, "fseek": {"w": [(0, 1)]}, "ftell": {},
+    "rewind": {"w": [(0, 1)]}, "feof": {}, "ferror": {}, "clearerr": {"w": [(0, 1)]}, "vfprintf": {"w": [(0, 1)]}, "dprintf": {},
+    "sscanf": {"w": [(i, 1) for i in range(2, 12)]}, "fscanf": {"w": [(0, 1)] + [(i, 1) for i in range(2, 12)]},
+    "newlocale": {"ret": "fresh"}, "freelocale": {"frees": [0]}, "uselocale": {}, "duplocale": {"ret": "fresh"},
+    "strtod_l": {"w": [(1, 1)], "out_alias": [(1, 0)]}, "strtof_l": {"w": [(1, 1)], "out_alias": [(1, 0)]}, "strtold_l": {"w": [(1, 1)], "out_alias": [(1, 0)]},
+    "strtol_l": {"w": [(1, 1)], "out_alias": [(1, 0)]}, "strtoll_l": {"w": [(1, 1)], "out_alias": [(1, 0)]},
+    "strtoul_l": {"w": [(1, 1)], "out_alias": [(1, 0)]}, "strtoull_l": {"w": [(1, 1)], "out_alias": [(1, 0)]},
+    "strtoimax": {"w": [(1, 1)], "out_alias": [(1, 0)]}, "strtoumax": {"w": [(1, 1)], "out_alias": [(1, 0)]},
+    "strnlen": {}, "strcoll": {}, "strverscmp": {}, "strcasestr": {"ret": 0}, "strchrnul": {"ret": 0}, "memrchr": {"ret": 0}, "rawmemchr": {"ret": 0},
+    "mempcpy": {"w": [(0, 1)], "ret": 0}, "stpncpy": {"w": [(0, 1)], "ret": 0}, "memccpy": {"w": [(0, 1)], "ret": 0},
+    "isalpha": {}, "isdigit": {}, "isalnum": {}, "isblank": {}, "iscntrl": {}, "isgraph": {}, "islower": {}, "isprint": {}, "ispunct": {}, "isupper": {}, "isxdigit": {},
+    "bsearch": {"ret": 1}, "reallocarray": {"frees": [0], "ret": "fresh"}, "atol": {}, "atoll": {}, "atof": {}, "secure_getenv": {"ret": "fresh"},
+    "getpid": {}, "time": {}, "clock_gettime": {"w": [(1, 1)]}, "pthread_mutex_lock": {"w": [(0, 1)]}, "pthread_mutex_unlock": {"w": [(0, 1)]},
+    "pthread_once": {"w": [(0, 1)]}, "__builtin_mul_overflow": {"w": [(2, 1)]}, "__builtin_add_overflow": {"w": [(2, 1)]}, "__builtin_sub_overflow": {"w": [(2, 1)]},
+    "__builtin_unreachable": {}, "__builtin_constant_p": {}, "__builtin_object_size": {},
 }
 
 
